@@ -29,7 +29,7 @@ ASSUMPTIONS = [
 REAL_VS_STUB = {"real": ["stackscope incl. ctypes frame reads", "real threads, real GIL hand-over at blocking calls", "sys.monitoring / sys.settrace instrumentation of stackscope's own code objects"],
                 "seam": ["stackscope._lowlevel_cpython_310.ctypes (module global) replaced by a pass-through stand-in that judges py_object casts and notes slot reads; nothing in /repo is changed"],
                 "stub": ["generated sync programs", "controller deciding every hand-over", "shadow managers"]}
-RARE_PROBES = ["ident_reused", "loop_template_targets", "retry_loop_taken", "snapshot_rejected", "target_frame_returned_during_inspect", "thread_exited_during_extract", "unstarted_checked", "finished_checked", "preempt_yields", "casts_checked"]
+RARE_PROBES = ["ident_reused", "loop_template_targets", "retry_loop_taken", "snapshot_rejected", "target_frame_returned_during_inspect", "thread_exited_during_extract", "unstarted_checked", "finished_checked", "preempt_yields", "targeted_handovers", "static_depth_self_checks"]
 LEGS = [
     {"name": "blocked312", "python": "3.12", "quick": 500, "thorough": 15000, "quick_s": 50, "thorough_s": 400, "run_timeout": 120, "crash_is_violation": True, "params": {"mode": "blocked"}},
     {"name": "blocked311", "python": "3.11", "quick": 250, "thorough": 6000, "quick_s": 40, "thorough_s": 300, "run_timeout": 120, "crash_is_violation": True, "params": {"mode": "blocked"}},
@@ -424,6 +424,14 @@ def run_racing(ctx):
             if not live:
                 break
             live[t.choose(len(live))].step()
+        if guard is not None:
+            # self-check of the static stack-depth computation on every suspended generator
+            # frame of the worlds (there the interpreter does record the depth)
+            for tg in tgs:
+                for r in tg.W.frames:
+                    fr = r.pyframe
+                    if fr is not None and frame_done(fr):
+                        stackdepth.live_slots(fr, impl.FrameObjectStart, False)
         nobs = 2 + t.choose(5)
         for ob in range(nobs):
             live = [tg for tg in tgs if not tg.done]
@@ -536,6 +544,10 @@ def run_racing(ctx):
             lowlevel.inspect_frame = real_inspect
             ctx.stat("casts_checked", guard.checked)
             guard.checked = 0
+            from ..world import stackdepth as _sd
+
+            ctx.stat("static_depth_self_checks", _sd.SELF_CHECKS[0])
+            _sd.SELF_CHECKS[0] = 0
         for tg in tgs:
             tg.finish()
     ctx.sample = {"programs": [tg.program for tg in tgs][:1], "events": events[:30]}
